@@ -25,7 +25,7 @@ Proof.
   intros d b st z Hd Hst Hz. unfold py_slice, step_of. assert (st =? 0 = false) as -> by lia.
   unfold py_adjust. cbv zeta. assert (st <? 0 = true) as -> by lia. assert (z <? 0 = true) as -> by lia.
   replace (Z.max (z + d) (-1)) with (-1) by lia. f_equal. apply range_list_empty_neg; [assumption|].
-  destruct b as [e|]; [|lia]. destruct (e <? 0); lia.
+  destruct b as [e|]; [|lia]. destruct (e <? 0) eqn:?; lia.
 Qed.
 
 Lemma onnx_slice_zero_zero : forall d st, 0 <= d -> st < 0 -> onnx_slice d 0 0 st = Some [].
@@ -52,7 +52,7 @@ Proof.
     + (* omitted start: d - 1 < -d only for d = 0 *)
       assert (d = 0) as -> by lia. rewrite onnx_slice_zero_zero by lia.
       unfold py_slice, step_of. assert (z =? 0 = false) as -> by lia. unfold py_adjust. cbv zeta. assert (z <? 0 = true) as -> by lia.
-      symmetry. f_equal. apply range_list_empty_neg; [lia|]. destruct (bval b) as [e|]; [|lia]. destruct (e <? 0); lia.
+      symmetry. f_equal. apply range_list_empty_neg; [lia|]. destruct (bval b) as [e|]; [|lia]. destruct (e <? 0) eqn:?; lia.
   - (* not clamped: the corner cannot occur *)
     pose proof (eager_slice_eq_python d a b s Hd) as E. unfold eager_slice in E. rewrite Eb in E. apply E.
     unfold neg_start_hazard. destruct (bval s) as [z|] eqn:Hs; [|reflexivity]. destruct (bval a) as [za|] eqn:Ha; [|reflexivity].
